@@ -128,6 +128,8 @@ pub enum Op {
     /// what: 0 index and leaf, 1 index only, 2 leaf only
     DropEntry { j: usize, what: u8 },
     AddEntry { t: usize, src: LSrc },
+    /// a foreign leaf appended (or prepended) WITHOUT an index: more leaves than indices
+    ExtraLeaf { at_end: bool },
     ValFlip { v: usize },
     ValDrop { v: usize },
     /// kind: 0 H([0]) padding value, 1 random, 2 copy of the value at v
@@ -159,6 +161,7 @@ impl Op {
             Op::Reverse => "reversed".into(),
             Op::DropEntry { what, .. } => format!("entry_dropped_{}", ["both", "index_only", "leaf_only"][*what as usize % 3]),
             Op::AddEntry { src: s, .. } => format!("entry_added_{}", src(s)),
+            Op::ExtraLeaf { at_end } => format!("foreign_leaf_without_index_{}", if *at_end { "appended" } else { "prepended" }),
             Op::ValFlip { .. } => "path_value_bitflip".into(),
             Op::ValDrop { .. } => "path_value_dropped".into(),
             Op::ValInsert { kind, .. } => format!("path_value_inserted_{}", ["padding_hash", "random", "copy"][*kind as usize % 3]),
@@ -259,6 +262,14 @@ pub fn apply(c: &Case, op: &Op, ctx: &Ctx) -> Option<Case> {
             let at = o.path.indices.iter().position(|i| *i > *t).unwrap_or(k);
             o.path.indices.insert(at, *t);
             o.leaves.insert(at.min(o.leaves.len()), l);
+        }
+        Op::ExtraLeaf { at_end } => {
+            let l = ctx.foreign[0];
+            if *at_end {
+                o.leaves.push(l);
+            } else {
+                o.leaves.insert(0, l);
+            }
         }
         Op::ValFlip { v } => {
             *o.path.values.get_mut(*v)?.first_mut()? ^= 0x10;
@@ -391,6 +402,8 @@ pub fn enumerate_ops(c: &Case, ctx: &Ctx, exhaustive: bool, rng: &mut ChaCha20Rn
         ops.push(Op::AddEntry { t, src: LSrc::Foreign(0) });
     }
     ops.push(Op::Reverse);
+    ops.push(Op::ExtraLeaf { at_end: true });
+    ops.push(Op::ExtraLeaf { at_end: false });
     let nv = c.path.values.len();
     for v in 0..nv {
         ops.push(Op::ValFlip { v });
@@ -448,7 +461,8 @@ fn witness_shape(c: &Case, ctx: &Ctx) -> &'static str {
 
 pub fn judge(ctx: &Ctx, c: &Case, class: &str, mon: &mut Monitor) -> Outcome {
     mon.eval();
-    mon.count(&format!("a:mutator:{class}"));
+    let cc = crate::viol::counter_class(class);
+    mon.count(&format!("a:mutator:{cc}"));
     let r = catch(|| vx::verify_batch_path(&c.root, c.nr_leaves, &c.leaves, &c.path));
     let o = match &r {
         Ok(Ok(())) => Outcome::Accepted,
@@ -479,20 +493,16 @@ pub fn judge(ctx: &Ctx, c: &Case, class: &str, mon: &mut Monitor) -> Outcome {
     if o == Outcome::Accepted {
         if nontrivial {
             let shape = witness_shape(c, ctx);
-            mon.violation(
-                &format!("C09 STM batch path accepted although it vouches for something not committed: {shape}"),
-                &format!(
+            crate::viol::report(mon, &format!("C09 STM batch path accepted although it vouches for something not committed: {shape}"), || format!(
                     "verify_leaves_membership_from_batch_path = Ok for a tree of {} committed leaves; false (index, leaf) claims: {:?}; root altered: {altered_root}; nr_leaves presented: {}; mutation class {class}",
                     ctx.n,
                     false_claims.iter().take(3).collect::<Vec<_>>(),
                     c.nr_leaves
-                ),
-                json!({"kind": "stm", "committed_leaves_hex": ctx.committed_bytes.iter().map(hex::encode).collect::<Vec<_>>(),
-                       "case": c.to_json(), "class": class, "witness_shape": shape}),
-            );
+                ), || json!({"kind": "stm", "committed_leaves_hex": ctx.committed_bytes.iter().map(hex::encode).collect::<Vec<_>>(),
+                       "case": c.to_json(), "class": class, "witness_shape": shape}));
         } else if class != "identity" {
             mon.count("a:verifies_but_claims_true");
-            mon.count(&format!("a:verifies_but_claims_true:{class}"));
+            mon.count(&format!("a:verifies_but_claims_true:{cc}"));
         }
     }
     o
@@ -503,25 +513,17 @@ pub fn honest(ctx: &Ctx, tree: &Tree, commitment: &(Bytes, usize), sel: &[usize]
     let path = match catch(|| tree.batch_path(sel.to_vec())) {
         Ok(p) => p,
         Err(p) => {
-            mon.violation("C09 STM batch path generation panics for committed indices", &p, json!({"kind": "stm-gen", "n": ctx.n, "selection": sel}));
+            crate::viol::report(mon, "C09 STM batch path generation panics for committed indices", || p.to_string(), || json!({"kind": "stm-gen", "n": ctx.n, "selection": sel}));
             return None;
         }
     };
     mon.count("a:honest_proofs");
     if path.indices != sel {
-        mon.violation(
-            "C09 STM generated batch path lists other indices than requested",
-            &format!("{:?} vs {:?}", path.indices, sel),
-            json!({"kind": "stm-gen", "n": ctx.n, "selection": sel}),
-        );
+        crate::viol::report(mon, "C09 STM generated batch path lists other indices than requested", || format!("{:?} vs {:?}", path.indices, sel), || json!({"kind": "stm-gen", "n": ctx.n, "selection": sel}));
     }
     let c = Case { root: commitment.0.clone(), nr_leaves: commitment.1, leaves: sel.iter().map(|i| ctx.committed[*i]).collect(), path };
     if judge(ctx, &c, "identity", mon) != Outcome::Accepted {
-        mon.violation(
-            "C09 honest STM batch path rejected",
-            "verify_leaves_membership_from_batch_path rejected a freshly generated batch path",
-            json!({"kind": "stm", "committed_leaves_hex": ctx.committed_bytes.iter().map(hex::encode).collect::<Vec<_>>(), "case": c.to_json(), "class": "identity"}),
-        );
+        crate::viol::report(mon, "C09 honest STM batch path rejected", || "verify_leaves_membership_from_batch_path rejected a freshly generated batch path".to_string(), || json!({"kind": "stm", "committed_leaves_hex": ctx.committed_bytes.iter().map(hex::encode).collect::<Vec<_>>(), "case": c.to_json(), "class": "identity"}));
     }
     Some(c)
 }
@@ -536,11 +538,7 @@ pub fn open_tree(ctx: &Ctx, mon: &mut Monitor) -> Option<(Tree, (Bytes, usize))>
     };
     let commitment = tree.commitment();
     if commitment.0 != ctx.ref_root || commitment.1 != ctx.n {
-        mon.violation(
-            "C09 STM tree commitment disagrees with the reference heap tree",
-            &format!("root equal: {}, nr_leaves {} vs {}", commitment.0 == ctx.ref_root, commitment.1, ctx.n),
-            json!({"kind": "stm-gen", "committed_leaves_hex": ctx.committed_bytes.iter().map(hex::encode).collect::<Vec<_>>()}),
-        );
+        crate::viol::report(mon, "C09 STM tree commitment disagrees with the reference heap tree", || format!("root equal: {}, nr_leaves {} vs {}", commitment.0 == ctx.ref_root, commitment.1, ctx.n), || json!({"kind": "stm-gen", "committed_leaves_hex": ctx.committed_bytes.iter().map(hex::encode).collect::<Vec<_>>()}));
     }
     Some((tree, commitment))
 }
@@ -572,7 +570,7 @@ pub fn run_selection(ctx: &Ctx, tree: &Tree, commitment: &(Bytes, usize), sel: &
     if rnd::chance(rng, 1, 16) {
         match catch(|| vx::batch_path_to_bytes(&c.path).and_then(|b| vx::batch_path_from_bytes(&b))) {
             Ok(Ok(p2)) if p2 == c.path => mon.count("a:path_bytes_roundtrip_ok"),
-            _ => mon.violation("C09 STM batch path does not survive to_bytes/from_bytes", "round trip differs", json!({"kind": "stm", "case": c.to_json()})),
+            _ => crate::viol::report(mon, "C09 STM batch path does not survive to_bytes/from_bytes", || "round trip differs".to_string(), || json!({"kind": "stm", "case": c.to_json()})),
         }
     }
 }
